@@ -40,10 +40,14 @@ Verdict(c) ==
           ELSE IF badStat # {} THEN <<StatClause(c), MinOf(badStat)>>
           ELSE <<"ok", 0>>
 
-TraceInit == tid \in 1..Len(Cases) /\ cfg = 0
-TraceNext == UNCHANGED <<tid, cfg>>
-TraceSpec == TraceInit /\ [][TraceNext]_<<tid, cfg>>
+\* The verdict is computed on the SUCCESSOR state (done = TRUE): TLC generates
+\* initial states in one thread but explores successors with all workers.
+VARIABLE done
+TraceInit == tid \in 1..Len(Cases) /\ done = FALSE /\ cfg = 0
+TraceNext == ~done /\ done' = TRUE /\ UNCHANGED <<tid, cfg>>
+TraceSpec == TraceInit /\ [][TraceNext]_<<tid, done, cfg>>
 
-Emit == LET v == Verdict(Cases[tid]) IN
+Emit == done =>
+        LET v == Verdict(Cases[tid]) IN
         PrintT(<<"VERDICT", tid, IF v[1] = "ok" THEN "ok" ELSE "bad", v[1], v[2]>>)
 =============================================================================
